@@ -15,6 +15,7 @@
  *   strtonum S MIN MAX | bits LO SHIFT CNT | ntop AF ADDR SIZE | pton AF S
  *   fmt ENTRY KIND LEN | reallocarray COUNT SIZE | mbs SRC SRCLEN DSTLEN|null
  *   getline CONTENT INIT|null | timegm Y M D h m s | fnmatch PAT STR FLAGS
+ *   wctype NAME   (wctype_wcsn, the class-name lookup of match_class)
  *   errno 0|ERANGE|EINVAL|EPERM|ENOMEM|EILSEQ|ENOSPC   (sets errno-on-entry of the following calls)
  *   layout sep|pageend|pagestart|unaligned|srcdst|dstsrc   (where the buffers of the following calls live)
  */
@@ -785,6 +786,27 @@ static int op_fnmatch(char **w, int nw)
 	return 1;
 }
 
+/* wctype NAME: `wctype_wcsn` (the class-name lookup under match_class) on exactly the NAME bytes
+ * (ASCII), handed over as an exact-size wide array WITHOUT terminator: 1 = a class, 0 = none */
+static int op_wctype(char **w, int nw)
+{
+	uint8_t *n0;
+	long nl, i;
+	wchar_t *wn;
+	wctype_t t;
+	if (nw != 2) return 0;
+	nl = hc_unhex(w[1], &n0);
+	if (nl < 0 || nl > 64) return 0;
+	wn = malloc(sizeof(wchar_t) * (nl ? nl : 1));
+	for (i = 0; i < nl; i++) wn[i] = n0[i];
+	ENTER();
+	t = wctype_wcsn(wn, (unsigned)nl);
+	LEAVE();
+	printf("%d", t != (wctype_t)0);
+	hfree(wn); hfree(n0);
+	return 1;
+}
+
 int main(void)
 {
 	char *line;
@@ -839,6 +861,7 @@ int main(void)
 			else if (!strcmp(op, "getline")) ok = op_getline(w, nw);
 			else if (!strcmp(op, "timegm")) ok = op_timegm(w, nw);
 			else if (!strcmp(op, "fnmatch")) ok = op_fnmatch(w, nw);
+			else if (!strcmp(op, "wctype")) ok = op_wctype(w, nw);
 		}
 		if (!ok) printf("bad-op");
 		putchar('\n');
